@@ -66,7 +66,7 @@ def run(ctx):
         if q:
             mcf = [ex.submit(mc_one, ctx, "id5", dict(BASE, MaxId="5"), "KindsSmall", 3)]
         else:
-            mcf = [ex.submit(mc_one, ctx, "full5", dict(BASE, MaxId="5"), "KindsFull", 5, True),
+            mcf = [ex.submit(mc_one, ctx, "full4", dict(BASE, MaxId="4"), "KindsFull", 5, True),
                    ex.submit(mc_one, ctx, "gp-reading4", dict(BASE, MaxId="4", Strict="TRUE"), "KindsFull", 3),
                    ex.submit(mc_one, ctx, "small6", dict(BASE), "KindsSmall", 3),
                    ex.submit(mc_one, ctx, "t3", dict(BASE, MaxT="3", MaxId="5"), "KindsSmall", 4)]
